@@ -27,7 +27,7 @@ theorem facts_shape_getVerticalTileIdOnAltitude :
 
 /-- numeric literals of `shape.getVertexOnVoxelOffset` -/
 theorem facts_shape_getVertexOnVoxelOffset :
-    Gen.funcFacts.lookup "shape.getVertexOnVoxelOffset" = some ["i:0", "i:1", "i:180", "i:2", "i:360", "i:8"] := by decide
+    Gen.funcFacts.lookup "shape.getVertexOnVoxelOffset" = some ["i:0", "i:1", "i:180", "i:2", "i:360"] := by decide
 
 /-- the latitude limit literal of SetLat is the binary64 value the model uses -/
 theorem lat_limit : F64.toBits SpatialId.latLimit = 4635685358059997190 := by decide +kernel
